@@ -149,6 +149,8 @@ def symbolic_event(it, name='e', user=True):
     c.hset(e, 'signal_name', nm.e)
     if user:
         c.assume(sig > len(it.w.signals))
+        # registry consistency (C25): a number above the built-in table carries a name outside the built-in table
+        c.assume(z3.And([sval(nm.e) != c.strconst(k) for k in it.w.signals]))
     else:
         c.assume(sig >= 1)
     return e
